@@ -134,7 +134,62 @@ func runC03(c *core.Ctx) {
 	})
 	c.Sample(map[string]any{"sub": "quadruples", "a": ptStr(pts[0]), "b": ptStr(pts[3]), "c": ptStr(pts[1]), "d": ptStr(pts[5])})
 
+	c03SharedVertexGeneric(c)
 	c03Crosser(c, pts)
+}
+
+// c03SharedVertexGeneric: every triple (a, b, d) of points in general position, as the four
+// quadruples in which CD shares exactly one endpoint with AB.  In general position the dot products
+// of the tangent-plane early exit carry maximal rounding noise, so this is where an error bound that
+// is slightly too small lets the early exit fire before the shared vertex is noticed.
+func c03SharedVertexGeneric(c *core.Ctx) {
+	g := lattice.PGeneric(!c.Quick())
+	n := len(g)
+	c.Note("shared_vertex_generic_alphabet", n)
+	c.ParallelFor(n, func(ai int) {
+		var evals int64
+		a := g[ai]
+		for bi, b := range g {
+			if bi == ai {
+				continue
+			}
+			for di, d := range g {
+				if di == ai || di == bi {
+					continue
+				}
+				for v, q := range [][2]s2.Point{{a, d}, {d, a}, {b, d}, {d, b}} {
+					if c.Skip("shared-vertex-generic", ai, bi, di, v) {
+						continue
+					}
+					evals++
+					cas := []int{ai, bi, di, v}
+					cc, dd := q[0], q[1]
+					detail := func() any {
+						return map[string]any{"a": ptStr(a), "b": ptStr(b), "c": ptStr(cc), "d": ptStr(dd)}
+					}
+					c.Guard("shared-vertex-generic", cas, detail, func() {
+						if got := crossInt(s2.CrossingSign(a, b, cc, dd)); got != refmodel.MaybeCross {
+							c.Violate("shared-vertex-generic", "wrong-answer", "CrossingSign does not report MaybeCross for two edges that share an endpoint", cas, detail())
+						}
+						cr := s2.NewChainEdgeCrosser(a, b, cc)
+						if got := crossInt(cr.ChainCrossingSign(dd)); got != refmodel.MaybeCross {
+							c.Violate("shared-vertex-generic", "wrong-answer", "ChainCrossingSign does not report MaybeCross for two edges that share an endpoint", cas, detail())
+						}
+						want := refmodel.VertexCrossing(a, b, cc, dd)
+						if got := s2.EdgeOrVertexCrossing(a, b, cc, dd); got != want {
+							c.Violate("shared-vertex-generic", "wrong-answer", "EdgeOrVertexCrossing differs from the exact vertex-crossing rule for two edges that share an endpoint", cas, detail())
+						}
+						if got := s2.VertexCrossing(a, b, cc, dd); got != want {
+							c.Violate("shared-vertex-generic", "wrong-answer", "VertexCrossing differs from the documented rule evaluated exactly", cas, detail())
+						}
+					})
+				}
+			}
+		}
+		c.Eval(int(evals))
+		c.Nontrivial(int(evals))
+		c.Count("shared_vertex_generic/quadruples", evals)
+	})
 }
 
 // crosser operations: the alphabet of machine (b)
